@@ -5,9 +5,9 @@
 EXTENDS Naturals, Sequences, TLC, Json, IOUtils
 
 MaxHistC == atoi(IOEnv.MAXHIST)
-SourcesC == {"valid", "macros", "syms", "table", "map", "map2", "high", "incbinA", "ipsA",
+SourcesC == {"valid", "macros", "syms", "table", "map", "map2", "high", "incbinA", "ipsA", "incA", "incfail",
              "failscan", "failparse", "failexpand", "faillabel", "failemit"}
-ProbesC  == {"p_plain", "p_usesmacro", "p_usessym", "p_text", "p_bank", "p_incbinB", "p_ipsB", "p_map"}
+ProbesC  == {"p_plain", "p_usesmacro", "p_usessym", "p_text", "p_bank", "p_incbinB", "p_ipsB", "p_map", "p_incB"}
 ResultC  == [s \in SourcesC \cup ProbesC |-> <<"result-of", s>>]
 
 VARIABLES g, hist, last
